@@ -16,7 +16,7 @@ LEVEL = "exploration"
 META = {
     "engine": "model-monitor",
     "technique": "runtime monitor: references/documentHighlight/rename results compared with the generator's recorded occurrence sets (exact ranges), from several occurrences per entity; rename edits applied and compared byte-for-byte with the expected text",
-    "text": "For every user-declared variable and procedure of gfortran-validated generated workspaces (tight operators `i=i+1`, `$` names, shadowing, homonyms in other modules, names in ONLY lists, PUBLIC statements, END statements, binding targets, MODULE PROCEDURE lists, decoys in comments and strings) references and highlight are requested from up to four of its occurrences; each must return exactly the recorded occurrence ranges (alias-spelled occurrences are don't-care) and all must agree; applying the rename edits must yield exactly the text with those ranges replaced. Sampled programs; all entities.",
+    "text": "For every user-declared variable and procedure of gfortran-validated generated workspaces (tight operators `i=i+1`, `$` names, shadowing, homonyms in other modules, names in ONLY lists, PUBLIC statements, END statements, binding targets, MODULE PROCEDURE lists, decoys in comments and strings) references and highlight are requested from up to four of its occurrences; each must return exactly the recorded occurrence ranges (alias-spelled occurrences are don't-care) and all must agree; applying the rename edits must yield exactly the text with those ranges replaced. Sampled programs; all entities. Every 10th case is a host-association workspace (entities of a module used from a submodule and INCLUDEd fragments in other files, PUBLIC/default/PRIVATE) with the token scan as oracle.",
     "note": "trusted: generator bookkeeping of occurrences; alias-spelled occurrences (`only: loc => rem`) are don't-care for references and entities that have aliases are not renamed; new names are fresh identifiers",
 }
 RULE = ("entities (var, sub, fun incl. dummies, results, loop variables) x up to 4 query occurrences x {references, documentHighlight} + one rename per entity; "
